@@ -293,8 +293,10 @@ inductive Frame where
 deriving Repr, DecidableEq
 
 inductive Phase where
-  /-- expression statement -/
+  /-- expression statement that may still turn out to be the target of `:` / `=` -/
   | expr
+  /-- expression statement that cannot be a target (a literal, a `lambda`, an arithmetic expression) -/
+  | noTarget
   /-- annotation of `name: …` -/
   | ann
   /-- value of `name = …` / `name: … = …` -/
@@ -372,6 +374,12 @@ def startsPositional (t : Tok) : Bool :=
   | .op c => c == '-' || c == '[' || c == '{'
   | _ => false
 
+/-- a `-` at the top level of an expression statement: the statement cannot be a target any more -/
+def minusPhase (s : PState) : Phase :=
+  match s.stack, s.phase with
+  | [], .expr => .noTarget
+  | _, p => p
+
 /-- a token where an operand must start -/
 def operandStep (s : PState) (closeOk argStart : Bool) (t : Tok) : PStep :=
   if argStart && seenKw s && startsPositional t then .stop .reject
@@ -384,9 +392,10 @@ def operandStep (s : PState) (closeOk argStart : Bool) (t : Tok) : PStep :=
   | .kw w =>
     if constKw w then .go { s with ex := .afterOp false }
     else if w == chars!"lambda" then .go { s with ex := .lamColon }
-    else .stop .unknown
+    else if w == chars!"not" || w == chars!"await" || w == chars!"yield" then .stop .unknown
+    else .stop .reject
   | .op c =>
-    if c = '-' then .go { s with ex := .operand false false }
+    if c = '-' then .go { s with ex := .operand false false, phase := minusPhase s }
     else if c = '[' then .go { s with stack := .lst :: s.stack, ex := .operand true false }
     else if c = '{' then .go { s with stack := .dict .start :: s.stack, ex := .operand true false }
     else if c = '(' ∨ c = '*' then .stop .unknown
@@ -410,7 +419,7 @@ def afterStep (s : PState) (isStr : Bool) (t : Tok) : PStep :=
   | .op c =>
     if c = '(' then .go { s with stack := .call false false [] :: s.stack, ex := .operand true true }
     else if c = '[' then .go { s with stack := .sub :: s.stack, ex := .operand false false }
-    else if c = '-' then .go { s with ex := .operand false false }
+    else if c = '-' then .go { s with ex := .operand false false, phase := minusPhase s }
     else if c = ')' ∨ c = ']' ∨ c = '}' then closeStep s c true
     else if c = ',' then
       (match s.stack with
@@ -440,11 +449,20 @@ def afterStep (s : PState) (isStr : Bool) (t : Tok) : PStep :=
        | [] =>
          (match s.phase with
           | .ann => .go { s with ex := .operand false false, phase := .rhs }
+          | .noTarget => .stop .reject
           | _ => .stop .unknown)
        | _ => .stop .reject)
     else .stop .unknown
 
 def isOp (t : Tok) (c : Char) : Bool := t == .op c
+
+/-- the phase of an expression statement that starts with `t`: literals, `lambda`, `{`, `-` can never
+    become the target of `:` / `=` (a `[` may: list targets) -/
+def startPhase (t : Tok) : Phase :=
+  match t with
+  | .num | .str | .kw _ => .noTarget
+  | .op c => if c = '{' ∨ c = '-' then .noTarget else .expr
+  | _ => .expr
 
 def pstep (s : PState) (t : Tok) : PStep :=
   match s.ex with
@@ -460,8 +478,8 @@ def pstep (s : PState) (t : Tok) : PStep :=
         if w == chars!"class" then .go { s with ex := .cls1 }
         else if w == chars!"pass" then .go { s with ex := .lineEnd }
         else if w == chars!"from" then .go { s with ex := .from1 }
-        else operandStep { s with phase := .expr } false false t
-      | _ => operandStep { s with phase := .expr } false false t
+        else operandStep { s with phase := startPhase t } false false t
+      | _ => operandStep { s with phase := startPhase t } false false t
   | .stmtName n =>
     if isOp t ':' then
       (if forbiddenTarget n then .stop .reject else .go { s with ex := .operand false false, phase := .ann })
